@@ -91,8 +91,8 @@ func runProbe(file string) {
 			fmt.Printf("-- tx %d vm=%v class=%q mine=%q uuids=%d value=%v\n", i, vm, o.Class, c02gen.ClassifyErr(o.Err), h.UUID-u0, o.Value)
 			if o.Err != nil {
 				es := o.Err.Error()
-				if len(es) > 700 {
-					es = es[:700]
+				if len(es) > 4000 {
+					es = es[:4000]
 				}
 				fmt.Printf("   err: %s\n", es)
 			}
